@@ -76,9 +76,8 @@ def run(ctx):
     ctx.build()
     mc = ctx.cfg('MC_Native', constants=dict(MaxArgs=1 if q else 2))
     ctx.tlc('MC_Native', mc, timeout=1500, heap='8g')
-    for fam in ('args', 'results', 'invalid'):
-        g = ctx.cfg('Gen_Native', name=f'Gen_Native_{fam}', constants=dict(Family=f'"{fam}"'))
-        ctx.tlc('Gen_Native', g, capture='cases.ndjson', timeout=1500, heap='8g')
+    g = ctx.cfg('Gen_Native', name='Gen_Native_small', constants=dict(Family='"small"'))   # args + results + invalid
+    ctx.tlc('Gen_Native', g, capture='cases.ndjson', timeout=1500, heap='8g')
     g = ctx.cfg('Gen_Native', name='Gen_Native_wide', constants=dict(Family='"wide"'))
     ctx.tlc('Gen_Native', g, capture='cases.ndjson', simulate=(2500 if q else 40000), depth=20, workers=min(4, ctx.cores),
             timeout=1500)
